@@ -106,6 +106,16 @@ def cases(tier, seed):
                        [3, 12, 48, 2 ** (d - 1)], [1, 6, 24, 33 + 64 * (d > 6)]):
                 add('inv', cfg, ka)
             add('div', cfg, [0, 3], kb=[1, 2 ** d - 1])
+    # routes that resolve the generated division/inverse by name: several denominators on one algebra
+    for route in ('wrapper', 'register'):
+        for cfg in (dict(p=2), dict(p=3), dict(p=2, r=1), dict(p=1, q=2)):
+            d = sum(cfg.values())
+            order = pat.canon_order(d, 0 if cfg.get('r') == 1 else 1)
+            grades = [[k for k in order if bin(k).count('1') == g] for g in range(d + 1)]
+            for _ in range(3 if tier == 'quick' else 12):
+                ka = list(rng.choice(grades + [pat.RND(d, 1, rng, max_len=3, min_len=1)[0]]))
+                dens = rng.sample([g for g in grades if g], 2) + [list(pat.RND(d, 1, rng, max_len=3, min_len=1)[0])]
+                out.append(dict(kind='div-history', cfg=cfg, route=route, ka=ka, dens=[list(x) for x in dens]))
     if tier == 'thorough':
         for ka in pat.RND(8, 8, rng, max_len=2, min_len=1, order=list(range(256))):
             add('inv', dict(p=5, q=2, r=1), ka)
@@ -127,7 +137,49 @@ def _exists_inverse_formula(km, xvals: dict, V, tag):
     return z3.And(*conj), y
 
 
+def _run_div_history(desc, V):
+    """a/b1, a/b2, a/b3 then all again on ONE algebra whose numeric path resolves functions by name."""
+    from kingdon.multivector import MultiVector
+    cfg = dict(desc['cfg'])
+    route = desc['route']
+    if route == 'wrapper':
+        cfg['wrapper'] = 'identity'
+    alg = make_alg(cfg)
+    plain = make_alg(desc['cfg'])
+    a = mv(alg, V, 'a', desc['ka'])
+    s_ = V.var('s')
+    bs = [mv(alg, V, f'b{i}', kb) for i, kb in enumerate(desc['dens'])]
+    if route == 'register':
+        ns = {}
+        exec('def reg_div(x, y):\n    return x / y\n', ns)
+        exec('def reg_inv(y):\n    return y.inv()\n', ns)
+        fdiv, finv = alg.register(ns['reg_div']), alg.register(ns['reg_inv'])
+    else:
+        fdiv, finv = (lambda x, y: x / y), (lambda y: y.inv())
+    claims = []
+    for rnd in range(2):
+        for i, b in enumerate(bs):
+            pb = MultiVector.fromkeysvalues(plain, tuple(b.keys()), list(b.values()))
+            pa = MultiVector.fromkeysvalues(plain, tuple(a.keys()), list(a.values()))
+            try:
+                want_inv = pb.inv()
+            except ZeroDivisionError:
+                continue
+            want = coeffs(pa * want_inv)
+            try:
+                claims += mv_eq_claims(f'a/b{i}#{rnd}', fdiv(a, b), want, fkey=f'div-history|route={route}')
+                claims += mv_eq_claims(f'inv(b{i})#{rnd}', finv(b), coeffs(want_inv), fkey=f'div-history|route={route}')
+                if route == 'wrapper':
+                    claims += mv_eq_claims(f's/b{i}#{rnd}', s_ / b, coeffs(s_ * want_inv), fkey=f'div-history|route={route}')
+            except ZeroDivisionError:
+                claims.append(Fail(f'zde[{i}]', 'division raised ZeroDivisionError on the history algebra but the inverse exists on a fresh one', fkey=f'div-history|route={route}|raise'))
+    claims.append(Eq('reached', 1, 1))
+    return claims
+
+
 def run_case(desc, V):
+    if desc['kind'] == 'div-history':
+        return _run_div_history(desc, V)
     alg = get_alg(desc['cfg'])
     km = kmap(alg)
     kind = desc['kind']
